@@ -24,6 +24,22 @@ PLAN = {
         "quick": [R("v0", 4), R("v1", 2), R("miri", 2, timeout=1500)],
         "thorough": [R("v0", 16), R("v1", 8), R("tsan", 4), R("miri", 8, timeout=7200)],
     },
+    "C09": {
+        "quick": [R("v0", 3), R("miri", 1, timeout=1500)],
+        "thorough": [R("v0", 16), R("v1", 4), R("asan", 4), R("miri", 6, timeout=7200)],
+    },
+    "C10": {
+        "quick": [R("v0", 4), R("miri", 1, timeout=1500)],
+        "thorough": [R("v0", 16), R("v1", 4), R("miri", 4, timeout=7200)],
+    },
+    "C13": {
+        "quick": [R("v0", 4), R("asan", 2), R("miri", 2, tree_borrows_odd=True, timeout=1500)],
+        "thorough": [R("v0", 16), R("v1", 4), R("v2", 2), R("asan", 8), R("tsan", 4), R("miri", 12, tree_borrows_odd=True, timeout=7200)],
+    },
+    "C14": {
+        "quick": [R("v0", 4), R("miri", 1, timeout=1500)],
+        "thorough": [R("v0", 16), R("v1", 4), R("tsan", 2), R("miri", 6, timeout=7200)],
+    },
     "C16": {
         "quick": [R("v0", 2), R("miri", 4, mode="leakcheck", tree_borrows_odd=True, timeout=1500)],
         "thorough": [R("v0", 8), R("v2", 2), R("asan", 4), R("tsan", 4),
